@@ -202,7 +202,8 @@ Definition wf_statics (l : list (ascii * tree)) : bool :=
 Definition wf_wild (o : option tree) : bool := match o with Some w => wfb w | None => true end.
 Definition wf_catch (n : tree) : bool :=
   match t_catch n with
-  | Some c => is_leaf V c && negb (is_nil (t_vals c)) && (negb (is_nil (t_vals n)) || t_bt n)
+  | Some c => is_leaf V c && negb (is_nil (t_vals c)) && str_eqb (last_key (t_keys c)) (t_path c)
+              && (negb (is_nil (t_vals n)) || t_bt n)
   | None => true
   end.
 
@@ -524,7 +525,7 @@ Proof.
     (* free wildcard *)
     destruct cc as [cn|]; [|rewrite here_nil; split; [reflexivity | intros caps' H; inversion H; reflexivity]].
     unfold wf_catch in Hcc. cbn [n t_catch t_vals t_bt] in Hcc.
-    apply andb_true_iff in Hcc as [Hcc Hfl]. apply andb_true_iff in Hcc as [_ Hcv].
+    apply andb_true_iff in Hcc as [Hcc Hfl]. apply andb_true_iff in Hcc as [Hcc _]. apply andb_true_iff in Hcc as [_ Hcv].
     assert (Hne : t_vals cn <> []) by (destruct (t_vals cn); [discriminate | discriminate]).
     rewrite (here_here_entry cn Hne). cbn [vals keys flag].
     rewrite (parent_of_abs n Hs Hk), (parent_flag_of_abs n Hs Hfl). cbn [n t_keys t_bt].
